@@ -61,11 +61,18 @@ func (d *Doc) BytesXRefStream(useObjStm bool) []byte {
 		osNr := max + 1
 		max = osNr
 		var prolog, body bytes.Buffer
+		var pnums []int
 		for i, n := range inStm {
-			fmt.Fprintf(&prolog, "%d %d ", n, body.Len())
+			pnums = append(pnums, n, body.Len())
 			body.WriteString(d.objs[n].body)
 			body.WriteString("\n")
 			ents[n] = ent{2, osNr, i}
+		}
+		if d.PrologMutate != nil {
+			pnums = d.PrologMutate(pnums, body.Len())
+		}
+		for _, v := range pnums {
+			fmt.Fprintf(&prolog, "%d ", v)
 		}
 		data := append(prolog.Bytes(), body.Bytes()...)
 		enc := deflate(data)
@@ -101,6 +108,7 @@ func (d *Doc) BytesXRefStream(useObjStm bool) []byte {
 		}
 	}
 	var rows bytes.Buffer
+	var rws [][3]int
 	for n := 0; n < size; n++ {
 		e, ok := ents[n]
 		if !ok {
@@ -110,9 +118,15 @@ func (d *Doc) BytesXRefStream(useObjStm bool) []byte {
 			}
 			e = ent{0, next[n], g}
 		}
-		rows.WriteByte(byte(e.typ))
-		rows.Write([]byte{byte(e.a >> 24), byte(e.a >> 16), byte(e.a >> 8), byte(e.a)})
-		rows.Write([]byte{byte(e.b >> 8), byte(e.b)})
+		rws = append(rws, [3]int{e.typ, e.a, e.b})
+	}
+	if d.RowsMutate != nil {
+		rws = d.RowsMutate(rws)
+	}
+	for _, e := range rws {
+		rows.WriteByte(byte(e[0]))
+		rows.Write([]byte{byte(e[1] >> 24), byte(e[1] >> 16), byte(e[1] >> 8), byte(e[1])})
+		rows.Write([]byte{byte(e[2] >> 8), byte(e[2])})
 	}
 	enc := deflate(rows.Bytes())
 	extra := ""
